@@ -442,6 +442,9 @@ class StmtMixin(object):
             if not self.branch(c):
                 break
             count += 1
+            if spec is not None and getattr(spec, 'cut_at', None) is not None and count > spec.cut_at:
+                self.bounded_cuts = getattr(self, 'bounded_cuts', 0) + 1
+                raise PathEnd()
             if count > (spec.unroll if spec is not None and spec.unroll else MAX_UNROLL * 16):
                 raise Unsupported('while loop does not terminate within the unroll limit (line %s)' % s.line)
             try:
